@@ -10,6 +10,7 @@ import Mitx.Driver.SumG
 import Mitx.Driver.Safety
 import Mitx.Driver.Restrict
 import Mitx.Driver.Comparers
+import Mitx.Driver.MathArray
 open Lean
 
 def dispatch (op : String) (j : Json) : Except String Json :=
@@ -30,6 +31,8 @@ def dispatch (op : String) (j : Json) : Except String Json :=
   | "sum" => Drv.sumOp j
   | "brackets" => Drv.brackets j
   | "restrict" => Drv.restrict j
+  | "marr" => Drv.marr j
+  | "mprod" => Drv.mprod j
   | "cmp_between" => Drv.cmpBetween j
   | "cmp_congruence" => Drv.cmpCongruence j
   | "cmp_eigen" => Drv.cmpEigen j
